@@ -6,6 +6,7 @@ import (
 	"fmt"
 	"os"
 	"path/filepath"
+	"runtime"
 	"sort"
 	"strconv"
 	"sync"
@@ -99,7 +100,7 @@ func NewRunner(prop string) *Runner {
 		if err == nil {
 			r.journal = f
 		}
-		wd := 30
+		wd := 20
 		if envWatchdogS != "" {
 			if n, err := strconv.Atoi(envWatchdogS); err == nil {
 				wd = n
@@ -112,10 +113,23 @@ func NewRunner(prop string) *Runner {
 	return r
 }
 
+// memLimit: a case that makes the process grow beyond this heap size is
+// treated like a hang (a non-terminating walk that appends forever eats
+// hundreds of MB per second; the sandbox has no memory limit of its own).
+const memLimit = 3 << 30
+
 func (r *Runner) watchdog(limit time.Duration) {
+	var ms runtime.MemStats
 	for {
-		time.Sleep(500 * time.Millisecond)
+		time.Sleep(250 * time.Millisecond)
 		s := atomic.LoadInt64(&r.caseStart)
+		if s != 0 && time.Since(time.Unix(0, s)) > 2*time.Second {
+			runtime.ReadMemStats(&ms)
+			if ms.HeapAlloc > memLimit {
+				os.WriteFile(filepath.Join(envStatsDir, fmt.Sprintf("hang-%s-%s.marker", r.Prop, shardTag())), []byte("memory guard: heap beyond limit while one case was running\n"), 0o644)
+				os.Exit(3)
+			}
+		}
 		if s != 0 && time.Since(time.Unix(0, s)) > limit {
 			// The journal holds the case in flight. Leave a marker and die;
 			// the driver re-runs that one case alone with a larger budget.
@@ -275,4 +289,33 @@ func (r *Runner) Snapshot() Stats {
 	r.mu.Lock()
 	defer r.mu.Unlock()
 	return r.st
+}
+
+// GuardSingleCase protects replay/corpus evaluation (which runs without a
+// Runner): if the case does not finish within limit, or the heap grows beyond
+// memLimit, onTrip is called with the reason (it should report and exit).
+// The returned function stops the guard.
+func GuardSingleCase(limit time.Duration, onTrip func(reason string)) (stop func()) {
+	done := make(chan struct{})
+	go func() {
+		start := time.Now()
+		var ms runtime.MemStats
+		for {
+			select {
+			case <-done:
+				return
+			case <-time.After(250 * time.Millisecond):
+			}
+			runtime.ReadMemStats(&ms)
+			if ms.HeapAlloc > memLimit {
+				onTrip("runaway memory growth: the operation does not terminate")
+				return
+			}
+			if time.Since(start) > limit {
+				onTrip(fmt.Sprintf("the operation did not return within %v", limit))
+				return
+			}
+		}
+	}()
+	return func() { close(done) }
 }
